@@ -154,6 +154,7 @@ pub struct CodeScan {
 	pub min_narrow: i32,
 	pub ldc: u32,
 	pub ldc_w: u32,
+	pub ldc2_w: u32,
 	pub code_length: u32,
 }
 
@@ -192,6 +193,7 @@ pub fn scan(parsed: &Parsed, bytes: &[u8]) -> Vec<CodeScan> {
 					op::WIDE => pending_wide = true,
 					op::LDC => cs.ldc += 1,
 					op::LDC_W => cs.ldc_w += 1,
+					op::LDC2_W => cs.ldc2_w += 1,
 					op::TABLESWITCH | op::LOOKUPSWITCH => cs.switches += 1,
 					_ => {},
 				}
